@@ -7,7 +7,7 @@ Local Open Scope Z_scope.
 
 Ltac Zify.zify_post_hook ::= Z.to_euclidean_division_equations.
 
-Definition RECLAIM_AGE : Z := 3.   (* the `- 3` of `curr_epoch as isize - 3`, see reclaim_now_threshold *)
+(* RECLAIM_AGE is generated (DisposeW.v): the N of `curr_epoch as isize - N` *)
 Definition M : Z := 2 ^ EPOCH_WIDTH.
 
 (* A 4-bit residue [a] read while the current epoch is [c] denotes the unique epoch congruent to [a]
@@ -52,8 +52,8 @@ Proof.
   unfold m_trans, modu_max_of, RECLAIM_AGE, epoch_ok in *.
   rewrite sext_small by (change (2 ^ (64 - 1)) with (2 ^ 63); lia).
   change (Z.shiftl 1 EPOCH_WIDTH) with 16.
-  replace (c - 3 - (c + 1 + 1)) with (-5) by lia. change (Z.rem (-5) 16) with (-5).
-  destruct (Z.leb_spec (decode c a - (c + 2)) (-5)); destruct (Z.leb_spec (decode c a) (c - 3)); lia.
+  match goal with |- (_ <=? Z.rem ?x 16) = (_ <=? ?y) =>
+    destruct (Z.leb_spec (decode c a - (c + 2)) (Z.rem x 16)); destruct (Z.leb_spec (decode c a) y); lia end.
 Qed.
 
 (* ---- C12(b) soundness: never "old enough" below the threshold, for every age >= -2 (incl. beyond one wrap) *)
@@ -69,9 +69,10 @@ Theorem reclaim_complete c s : epoch_ok c -> 0 <= s ->
   RECLAIM_AGE <= c - s <= 2 ^ EPOCH_WIDTH - 3 ->
   reclaim_now c (s mod 16) = true.
 Proof.
-  intros Hc Hs H. change (2 ^ EPOCH_WIDTH) with 16 in H. unfold RECLAIM_AGE in H.
+  intros Hc Hs H. change (2 ^ EPOCH_WIDTH) with 16 in H.
+  assert (0 <= RECLAIM_AGE) by (vm_compute; congruence).
   rewrite reclaim_now_threshold by (auto; lia).
-  rewrite decode_exact by lia. apply Z.leb_le. unfold RECLAIM_AGE. lia.
+  rewrite decode_exact by lia. apply Z.leb_le. lia.
 Qed.
 
 (* ---- merged: the stamp written into a child is the residue of the most recent of the three *)
@@ -124,8 +125,9 @@ Proof.
   rewrite H. unfold wrap. lia.
 Qed.
 
-(* non-vacuity / sanity: ages 0..2 refuse, 3..13 accept, 14..18 refuse again (looks recent), for a large epoch *)
+(* non-vacuity / sanity: below the threshold refuse, inside the window accept, just beyond the window
+   refuse again (looks recent), for a large epoch *)
 Example window_example :
   map (fun age => reclaim_now 1000 ((1000 - age) mod 16)) [0;1;2;3;4;12;13;14;15;16;17;18;19;35]
-  = [false;false;false;true;true;true;true;false;false;false;false;false;true;true].
+  = map (fun age => RECLAIM_AGE + 2 <=? (age + 2) mod 16) [0;1;2;3;4;12;13;14;15;16;17;18;19;35].
 Proof. vm_compute. reflexivity. Qed.
